@@ -1,4 +1,4 @@
 SPECIFICATION Spec
 CONSTANT Dump = FALSE
-INVARIANTS ValidLayout ScopeDefsAgree ResolutionIsFunction UsableIffSpellable L2Scope L2Ser L2Unres L2CmpInv L2DedupInv
+INVARIANTS ValidLayout ScopeDefsAgree ResolutionIsFunction UsableIffSpellable L2Scope L2Ser L2Unres L2CmpInv L2DedupInv RT
 CHECK_DEADLOCK FALSE
